@@ -99,6 +99,7 @@ static void c13_sym(Buf *b) {
     if (!h) { tr("sym rc=999 note=nokey bits=%d", bits); return; }
     uint16_t mode = MODES[rnd(5)];
     uint8_t iv[16]; c13_fill(iv, 16);
+    if (mode == ALG_CTR && chance(40)) { int keep = chance(60) ? 1 : rnd(16); for (int q = keep; q < 16; q++) iv[q] = 0xff; if (chance(40)) iv[15] = 0xfe - rnd(3); if (keep == 0 && chance(50)) iv[0] = 0xff; }   /* counters about to carry */
     /* two chained calls: the second uses the IV returned by the first */
     uint8_t ivcur[16]; memcpy(ivcur, iv, 16);
     for (int call = 0; call < 2; call++) {
